@@ -436,6 +436,22 @@ def check(case, impl, repo=None):
                 i += 1
                 j += 1
                 continue
+            # mul(x, y) of plain operands is the product x * y, in that order
+            if a == "mul" and H[i + 1:i + 2] == ["("]:
+                margs_h, hi2 = group(H, i + 1)
+                plain = lambda ts: bool(ts) and all(IDENT.match(x) or x in (".", "::") or re.match(r"\d", x) for x in ts) and not any(x in threaded_leaf for x in ts)
+                if len(margs_h) == 2 and plain(margs_h[0]) and plain(margs_h[1]):
+                    want = margs_h[0] + ["*"] + margs_h[1]
+                    swapped = margs_h[1] + ["*"] + margs_h[0]
+                    n = len(want)
+                    if M[j:j + n] == want:
+                        i, j = hi2, j + n
+                        continue
+                    if M[j:j + 1] == ["("] and M[j + 1:j + 1 + n] == want and M[j + 1 + n:j + 2 + n] == [")"]:
+                        i, j = hi2, j + n + 2
+                        continue
+                    if want != swapped and (M[j:j + n] == swapped or M[j + 1:j + 1 + n] == swapped):
+                        raise Mismatch("the operands of mul are swapped: %s" % ctx(i, j))
             # bit casts: asint / asuint / asfloat (e) is as_type<T>(e) with T of the named scalar kind
             if a in ("asint", "asuint", "asfloat") and b == "as_type" and H[i + 1:i + 2] == ["("] and M[j + 1:j + 2] == ["<"] and M[j + 3:j + 5] == [">", "("]:
                 want = {"asint": "int", "asuint": "uint", "asfloat": "float"}[a]
@@ -573,7 +589,7 @@ def check(case, impl, repo=None):
             raise Mismatch(ctx(i, j))
     except Mismatch as e:
         ns = nonsimple_intrinsics(repo)
-        if "is written as_type<" not in str(e) and "copies of its operand" not in str(e) and any(x in ns - {"asint", "asuint", "asfloat"} for x in H[max(0, i - 40):i + 8]):
+        if "is written as_type<" not in str(e) and "copies of its operand" not in str(e) and "operands of mul" not in str(e) and any(x in ns - {"asint", "asuint", "asfloat"} for x in H[max(0, i - 40):i + 8]):
             return None      # the lowering of this intrinsic (helper, operator, as_type<>) is outside the rules
         return "the Metal text is not the HLSL text under the threading / reference rules: " + str(e)
     except IndexError:
